@@ -374,6 +374,7 @@ func extractFacts(pkgs []*packages.Package, prog *ssa.Program, byPath map[string
 	meta["api"] = len(api)
 	// ---- commit structure
 	sb.WriteString(commitFacts(p))
+	sb.WriteString(spanFacts(pz))
 	// ---- mode check decision
 	sb.WriteString(modeFacts(p))
 	sb.WriteString(lockFacts(prog, sp))
@@ -471,6 +472,61 @@ func commitFacts(p *packages.Package) string {
 	}
 	sb.WriteString("def commitLoop : List (String × String × String) := [\n" + strings.Join(items, ",\n") + "]\n\n")
 	return sb.String()
+}
+
+// spanFacts: every statement and loop condition of ds/zset that reads or writes a span, a rank accumulator or
+// `traversed`, per function, in source order, as printed source. The skiplist model (Nuts.Model.Skiplist) was
+// written from these lines; NutsProofs.Facts.span_arithmetic_ok lists what it expects.
+func spanFacts(pz *packages.Package) string {
+	var items []string
+	if pz != nil {
+		for _, f := range pz.Syntax {
+			if strings.Contains(pz.Fset.Position(f.Pos()).Filename, "verif_") || strings.HasSuffix(pz.Fset.Position(f.Pos()).Filename, "_test.go") {
+				continue
+			}
+			for _, d := range f.Decls {
+				fd, ok := d.(*ast.FuncDecl)
+				if !ok || fd.Body == nil {
+					continue
+				}
+				name := fd.Name.Name
+				add := func(kind, text string) {
+					items = append(items, fmt.Sprintf("  (%s, %s, %s)", leanStr(name), leanStr(kind), leanStr(text)))
+				}
+				interesting := func(s string) bool {
+					return strings.Contains(s, ".span") || strings.Contains(s, "traversed") || strings.Contains(s, "rank[")
+				}
+				ast.Inspect(fd.Body, func(n ast.Node) bool {
+					switch x := n.(type) {
+					case *ast.AssignStmt:
+						t := exprStr(pz.Fset, x.Lhs[0]) + " " + x.Tok.String() + " " + exprStr(pz.Fset, x.Rhs[0])
+						if interesting(t) {
+							add("assign", t)
+						}
+					case *ast.IncDecStmt:
+						t := exprStr(pz.Fset, x.X) + x.Tok.String()
+						if interesting(t) {
+							add("incdec", t)
+						}
+					case *ast.ForStmt:
+						if x.Cond != nil {
+							t := exprStr(pz.Fset, x.Cond)
+							if interesting(t) || strings.Contains(t, ".forward") || strings.Contains(t, "limit") {
+								add("while", t)
+							}
+						}
+					case *ast.IfStmt:
+						t := exprStr(pz.Fset, x.Cond)
+						if interesting(t) || strings.Contains(t, ".score") || strings.Contains(t, ".forward") {
+							add("if", t)
+						}
+					}
+					return true
+				})
+			}
+		}
+	}
+	return "/-- ds/zset: every statement that reads or writes a span, `rank[]` or `traversed`, every search-loop condition and every score / forward test: (function, kind, source text), in source order -/\ndef spanStmts : List (String × String × String) := [\n" + strings.Join(items, ",\n") + "]\n\n"
 }
 
 // modeFacts: the two refusal conditions of checkEntryIdxMode, as printed source.
